@@ -501,7 +501,57 @@ def ob_overload():
     return [Result('C07/functions/overload-resolution', FAILED if bad else DISCHARGED, 'pyvc+enum', time.time() - t0, (), det)]
 
 
+def ob_overload_order():
+    """declaration order of overloads is what the fallback resolution iterates over: type checking the declarations must not reorder the overload
+    table, wherever the caller sits (before, between, inside, after the overloads)"""
+    ast, DT, AT, TCE, CE, SPAN = mods()
+    import dataclasses as dc
+    from hidc.lexer import SourceCode
+    from hidc.parser import parse
+    from hidc.lexer.tokens import Ident
+    t0 = time.time(); bad = []; n = 0
+    def calls(tree, name):
+        out = []
+        def walk(x):
+            if isinstance(x, ast.FuncCall) and x.func.name == name: out.append(x)
+            if dc.is_dataclass(x) and not isinstance(x, type):
+                for f in dc.fields(x):
+                    v = getattr(x, f.name, None)
+                    if isinstance(v, (list, tuple)):
+                        for y in v: walk(y)
+                    elif dc.is_dataclass(v): walk(v)
+        walk(tree); return out
+    orders = [('int', 'byte'), ('byte', 'int')]
+    for first, second in orders:
+        src = (f'int early() {{ return pick([1, 2]); }}\nint pick({first}[] a) {{ return 1; }}\nint mid() {{ return pick([1, 2]); }}\n'
+               f'int pick({second}[] a) {{ return pick([3, 4]); }}\nint late() {{ return pick([5, 6]); }}\nint pick(bool[] a) {{ return 3; }}\n'
+               'empty @is_you() { write(early() + mid() + late() + pick([7, 8])); }')
+        env = ast.Environment.empty()
+        try:
+            parse(SourceCode.from_string(src)).evaluate(env)
+        except CE as e:
+            bad.append({'program': src, 'raises': repr(e)}); continue
+        table = [tuple(str(t) for t in sig) for sig in env.funcs[Ident('pick')]]
+        want_table = [(f'{first}[]',), (f'{second}[]',), ('bool[]',)]
+        n += 1
+        if table != want_table:
+            bad.append({'program': src, 'overload_table_after_typechecking': table, 'declaration_order': want_table})
+        for fname, decls in env.funcs.items():
+            for sig, decl in decls.items():
+                if not isinstance(decl, ast.FuncDeclaration): continue
+                for c in calls(decl.body, 'pick'):
+                    n += 1
+                    got = str(c.args[0].type)
+                    if got != f'{first}[]':
+                        bad.append({'caller': f'{fname}({", ".join(map(str, sig))})', 'call': 'pick([..])', 'bound_to': f'pick({got})', 'documented': f'pick({first}[]) (first declared overload every argument coerces to)'})
+    det = {'formula': 'a call with no exact match binds the first *declared* coercible overload wherever the caller stands; the overload table keeps declaration order through type checking',
+           'domain': n, 'functions': ['hidc.ast.program.FuncDeclaration.evaluate', 'hidc.ast.program.Program.evaluate', 'hidc.ast.expressions.FuncCall.evaluate', 'hidc.ast.symbols.Environment.add_funcs']}
+    if bad: det.update(model=bad[:5], replay={'reproduced': True, 'how': 'real parser and typechecker on the program', 'observed': bad[0]})
+    return [Result('C07/overload/declaration-order-kept', FAILED if bad else DISCHARGED, 'enum', time.time() - t0, (), det)]
+
+
 def tasks(tier):
     return [task(MOD, 'ob_lattice', ('C07',), label='py/types/lattice', cost=3),
             task(MOD, 'ob_statements', ('C07',), label='py/types/statements', cost=3),
-            task(MOD, 'ob_overload', ('C07',), label='py/types/overload', cost=3)]
+            task(MOD, 'ob_overload', ('C07',), label='py/types/overload', cost=3),
+            task(MOD, 'ob_overload_order', ('C07', 'C18'), label='py/types/overload-order', cost=1)]
